@@ -405,6 +405,7 @@ class Walker:
         self.alias = {}                     # decl id of a private reference/pointer -> (root decl, dims, const?)
         self.decl_name = {}
         self.decl_type = {}
+        self.decl_line = {}
         self.raw = []                       # raw accesses
         self.reentrant = []
         self.guards = []
@@ -492,6 +493,7 @@ class Walker:
                 self.private_why[n["id"]] = "declared inside the region at %s" % os.path.basename(self.where(n))
             self.decl_name[n["id"]] = n.get("name", "?")
             self.decl_type[n["id"]] = qual(n)
+            self.decl_line[n["id"]] = self.src.line(n)
         inner = n.get("inner", [])
         if k == "CapturedDecl":
             inner = inner[:1]
@@ -1060,6 +1062,12 @@ class Walker:
                 return
             for a in args:
                 E(a, "RW")
+            # a function handing out a mutable reference / pointer to something that is not one of its arguments
+            # (singleton accessors such as Logging::instance()): process-global state, shared by all iterations
+            t = qual(n).strip()
+            if mode != "R" and n.get("valueCategory") == "lvalue" and not is_const_type(t) and not args:
+                self.record(n, {"id": "global:" + rd.get("name", "?"), "name": rd.get("name", "?") + "()", "kind": "VarDecl",
+                                "type": {"qualType": t}}, dims, mode, probe)
             return
         if ck in ("UnresolvedLookupExpr", "UnresolvedMemberExpr", "MemberExpr", "DependentScopeDeclRefExpr"):
             if ck in ("UnresolvedMemberExpr", "MemberExpr") and self.kids(callee):
@@ -1246,6 +1254,9 @@ def finish_region(w, name):
         "syms": ictx.syms, "lo": lean_term(lo), "hi": lean_term(hi), "arrays": arrays,
         "privateVars": sorted(set("%s — %s" % (w.private[i], w.private_why[i]) for i in w.private)),
         "privateNames": sorted(set(w.private.values())),
+        # thread-private scratch that outlives an iteration (declared between `omp parallel` and the loop)
+        "carriedScratch": sorted(set(w.private[i] for i in w.private if i != w.loop["var"] and w.decl_line.get(i)
+                                     and w.decl_line[i] < (w.loop["line"] or 0))),
         "sharedReadOnly": shared_ro, "reentrantCalls": sorted(set(w.reentrant)), "clauses": w.clause_text,
         "flags": sorted(w.flags), "accesses": accesses,
     }
